@@ -217,28 +217,58 @@ Proof.
 Qed.
 Print Assumptions exclusive_maximum_dropped_refuted.
 
-(* FINDING map-value-required-only-unvalidated: a map whose values are a user type with a
-   required string; a value lacking it violates `required`, yet no validation is generated
-   for the map values (hasValidations is evaluated with Pointer = false there) *)
+(* REPAIRED (map-value-required-only-unvalidated): once recurseValidationCode keeps the
+   attribute context for user-type map keys / values (map_keeps_user_ctx, read from the
+   source), a map whose values are a user type with only a required string is validated:
+   the value lacking it is reported missing_field, exactly as the design says *)
 Definition env_ro : env := mkEnv [(0, AObject [(0, true, APrim no_validation false PString)])] [].
 
-Theorem map_value_required_only_refuted :
+Theorem map_value_user_type_validated :
+  map_keeps_user_ctx = true ->
+  let E := env_ro in let c := ctx_server_request in
+  let a := AObject [(0, false, AMap no_validation (APrim no_validation false PString) (AUser 0))] in
+  let v := VObj [VMap [(VStr [107%N], VObj [VNull])]] in
+  has_validations E (map_ctx c (AUser 0)) 0 = true /\
+  validate oracle_true oracle_true E c 3 c true a v = Some [(EMissingField, [PField 0])] /\
+  violations oracle_true oracle_true E 3 a v = [(EMissingField, [PField 0])].
+Proof.
+  intro Hk. cbn zeta. split; [|split].
+  - unfold map_ctx. rewrite Hk. vm_compute. reflexivity.
+  - unfold validate. cbn [gen]. unfold map_ctx. rewrite Hk. vm_compute. reflexivity.
+  - vm_compute. reflexivity.
+Qed.
+Print Assumptions map_value_user_type_validated.
+
+(* FINDING map-nested-collection-required-only-unvalidated (what remains of it): below a
+   map, arrays and maps are still validated with Pointer = false, so a user type with only a
+   required string met as ELEMENT OF AN ARRAY THAT IS A MAP VALUE gets no Validate call
+   (hasValidations is false there): the element lacking the attribute violates `required`,
+   the generated validation reports nothing *)
+Theorem map_nested_collection_required_only_refuted :
   exists E fc c a v,
     wf_env E = true /\ wf_att E a = true /\ wt E fc c true a v /\
     violations oracle_true oracle_true E 3 a v = [(EMissingField, [PField 0])] /\
     validate oracle_true oracle_true E fc 3 c true a v = Some [] /\
-    has_validations E (map_ctx c) 0 = false /\ has_validations E c 0 = true.
+    has_validations E (set_ptr c false) 0 = false /\ has_validations E c 0 = true.
 Proof.
   exists env_ro, ctx_server_request, ctx_server_request,
-         (AObject [(0, false, AMap no_validation (APrim no_validation false PString) (AUser 0))]),
-         (VObj [VMap [(VStr [107%N], VObj [VNull])]]).
-  repeat split; try (vm_compute; reflexivity).
-  apply wt_obj. apply wtf_cons; [|apply wtf_nil].
-  apply wt_map. intros kv [<-|[]]. cbn [fst snd]. split.
-  - now apply wt_prim.
-  - apply wt_user; [discriminate|]. apply wt_obj. apply wtf_cons; [apply wt_null; reflexivity|apply wtf_nil].
+         (AObject [(0, false, AMap no_validation (APrim no_validation false PString) (AArray no_validation (AUser 0)))]),
+         (VObj [VMap [(VStr [107%N], VArr [VObj [VNull]])]]).
+  assert (Hm : forall c, map_ctx c (AArray no_validation (AUser 0)) = set_ptr c false)
+    by (intro c; unfold map_ctx; destruct map_keeps_user_ctx; reflexivity).
+  refine (conj _ (conj _ (conj _ (conj _ (conj _ (conj _ _)))))).
+  - reflexivity.
+  - reflexivity.
+  - apply wt_obj. apply wtf_cons; [|apply wtf_nil].
+    apply wt_map. intros kv [<-|[]]. cbn [fst snd]. split; [now apply wt_prim|].
+    apply wt_arr. intros x [<-|[]]. apply wt_user; [discriminate|].
+    apply wt_obj. apply wtf_cons; [apply wt_null; reflexivity|apply wtf_nil].
+  - vm_compute. reflexivity.
+  - unfold validate. cbn [gen]. rewrite Hm. unfold map_ctx. destruct map_keeps_user_ctx; vm_compute; reflexivity.
+  - vm_compute. reflexivity.
+  - vm_compute. reflexivity.
 Qed.
-Print Assumptions map_value_required_only_refuted.
+Print Assumptions map_nested_collection_required_only_refuted.
 
 (* non-vacuity: a recursive user type (id 0: {v: Int required Minimum(1); child: T;
    kids: [T]}) validated three levels deep; the generated code and the declarative reading
